@@ -206,6 +206,13 @@ def run_property(prop, tier='quick', explain=None, quiet=False, write=True):
         vdir = os.path.join(VERIF, 'evidence', 'violations')
         if os.environ.get('VERIF_NO_EVIDENCE'):
             vdir = os.path.join(os.environ.get('TMPDIR') or '/tmp', 'verif-selftest-violations')
+        elif os.path.isdir(vdir) and not explain:
+            for fn in os.listdir(vdir):      # replay files of earlier runs of this property are stale now
+                if fn.startswith(prop + '-'):
+                    try:
+                        os.remove(os.path.join(vdir, fn))
+                    except OSError:
+                        pass
         for o in new_viol:
             os.makedirs(vdir, exist_ok=True)
             safe = ''.join(ch if ch.isalnum() or ch in '._-' else '_' for ch in o.key)[:150]
